@@ -1,0 +1,35 @@
+// SPDX-License-Identifier: Apache-2.0
+// Copyright Authors of Cilium
+
+//go:build verif
+
+package statedb
+
+import (
+	"time"
+
+	"github.com/cilium/statedb/internal/simhook"
+)
+
+// VerifInstallHooks installs (or with nils, removes) the simulation hooks.
+func VerifInstallHooks(yield func(point string), acquire, release func(lock any, point string)) {
+	simhook.YieldFn = yield
+	simhook.AcquireFn = acquire
+	simhook.ReleaseFn = release
+}
+
+// VerifSetGCRateLimitInterval sets the graveyard GC rate limit interval. Must be
+// called before Start().
+func (db *DB) VerifSetGCRateLimitInterval(interval time.Duration) {
+	db.setGCRateLimitInterval(interval)
+}
+
+// VerifGraveyardLen returns the number of deleted objects retained for the table.
+func VerifGraveyardLen(txn ReadTxn, table TableMeta) int {
+	return table.numDeletedObjects(txn)
+}
+
+// VerifDeleteTrackerCount returns the number of delete trackers of the table.
+func VerifDeleteTrackerCount(txn ReadTxn, table TableMeta) int {
+	return txn.getTableEntry(table).deleteTrackers.Len()
+}
